@@ -362,7 +362,7 @@ pub fn build<P: Pred>(s: &Scn, oracles: Oracles) -> World<P> {
         let period = (frame_ns as f64 * (1.0 + cfg.skew)) as u64;
         let mut game = Game::new();
         game.keep = s.keep_frames;
-        game.save_checksum = !s.no_checksum;
+        game.save_checksum = !(s.no_checksum && s.desync.is_none()); // checksum-less saving only where detection is off
         game.strict_cells = oracles.c02;
         if let Some((d, f)) = s.diverge {
             if d == pi {
@@ -391,7 +391,7 @@ pub fn build<P: Pred>(s: &Scn, oracles: Oracles) -> World<P> {
         let first = T0 + rng.below(frame_ns);
         let mut game = Game::new();
         game.keep = s.keep_frames;
-        game.save_checksum = !s.no_checksum;
+        game.save_checksum = !(s.no_checksum && s.desync.is_none()); // checksum-less saving only where detection is off
         game.strict_cells = oracles.c02;
         let idx = nodes.len();
         let cfg = NodeCfg { pauses: sp.pauses.clone(), drain: sp.drain, ..Default::default() };
